@@ -225,6 +225,20 @@ def nesting_cases():
     return out
 
 
+def limit_cases():
+    """Findings E (CPython's 4300-digit limit of int <-> str conversion) and F (numerical expansion behind _offset_)."""
+    out = []
+    for stmt in ("@print 10**4299", "@print 10**4300", "@print 1" + "0" * 4400, "@print 1e5000", "@print 1e-5000", "@print {10**5000}", "uint8 X = 10**5000",
+                 "float16 X = 1e5000", "utf8[1e40010] s", "uint8[10**5000] x\n@extent 8", "uint8 x\n@extent 8*10**5000+1", "@assert 10**5000 > 1",
+                 "@print 0x1" + "0" * 5000, "@print 1/10**5000"):
+        tail = "" if "@extent" in stmt else "\n@sealed"
+        out.append(ns_case({"A.1.0.dsdl": stmt + tail + "\n"}, "probe:int-str-limit"))
+    for text in ("uint8[2**63] x\n@print _offset_\n@sealed\n", "uint8[2**40] x\n@print _offset_.count\n@sealed\n", "uint8[1e34] c\n@assert _offset_.min == 0\n@sealed\n",
+                 "uint8[<=2**62] x\n@assert _offset_ % 8 == {0}\n@sealed\n", "uint8[2**20] x\n@print _offset_\n@sealed\n"):
+        out.append(ns_case({"A.1.0.dsdl": text}, "probe:offset-expansion"))
+    return out
+
+
 def control_cases():
     out = []
     ctrl = list(range(0, 32)) + [127, 0x85, 0xA0, 0x2028, 0x2029, 0xFEFF, 0x200B, 0xFFFF, 0x1F600, 0x0301]
@@ -318,7 +332,7 @@ def generate(rng, tier):
         streams.append(s)
 
     add(ns_case(dict(NS), "baseline"), "corpus")
-    for c in service_cases() + nesting_cases() + control_cases():
+    for c in service_cases() + nesting_cases() + control_cases() + limit_cases():
         add(c, "targeted")
     for c in name_cases(rng, 150 if tier == "quick" else 3000):
         add(c, "targeted" if c["tag"] != "names:random" else "random")
@@ -440,9 +454,12 @@ def run_impl(cases):
             cls = V.classify(ex) if isinstance(ex, Exception) else "COther"
             culprit = "" if isinstance(ex, pydsdl.Error) else type(ex).__name__
             if isinstance(ex, pydsdl.InternalError):
-                m = re.search(r"title=([A-Za-z]+)", str(ex))
+                m = re.search(r"title=([A-Za-z]+)", str(ex)) or re.match(r"\s*([A-Za-z]+(?:Error|Exception))\b", ex.text or "")
                 culprit = m.group(1) if m else (type(ex.__cause__).__name__ if ex.__cause__ is not None else "")
-            out.append({"out": cls, "pred_fail": "%s%s escaped" % (type(ex).__name__, ("(" + culprit + ")") if culprit else ""), "culprit": culprit})
+            o = {"out": cls, "pred_fail": "%s%s escaped" % (type(ex).__name__, ("(" + culprit + ")") if culprit else ""), "culprit": culprit}
+            if isinstance(ex, pydsdl.InternalError) and "integer string conversion" in str(ex):
+                o["hint"] = "int-max-str-digits"  # only used to classify the open finding F21, never for a verdict
+            out.append(o)
     signal.alarm(0)
     shutil.rmtree(base, ignore_errors=True)
     return out
@@ -501,11 +518,26 @@ def max_fields_per_section(text):
     return best
 
 
+HUGE_INT = re.compile(r"\d{4300,}|[eE][+-]?0*(?:[5-9]\d{3}|4[3-9]\d{2}|\d{5,})|\*\*")
+BIG_CAPACITY = re.compile(r"\[[^\]\n]*(?:\*\*|[eE]\d|\d{7,}|[A-Za-z_])[^\]\n]*\]")
+
+
 def known_finding(case, obs, known):
     if not isinstance(obs, dict) or case.get("k") != "ns":
         return None
+    texts = list(case.get("files", {}).values())
     for k in known:
         sig = k.get("signature", {})
+        if sig.get("kind") == "int-max-str-digits":
+            # InternalError wrapping ValueError on a definition that contains an integer of 4300 or more decimal digits
+            if obs.get("out") == "CInternal" and obs.get("culprit") in ("ValueError", "VisitationError") and \
+                    (obs.get("hint") == "int-max-str-digits" or any(HUGE_INT.search(t) for t in texts)):
+                return "%s %s" % (k.get("id", "?"), k.get("description", "")[:200])
+        if sig.get("kind") == "offset-expansion":
+            # InternalError wrapping OverflowError / MemoryError on a definition that uses _offset_ after a huge array
+            if obs.get("out") == "CInternal" and obs.get("culprit") in ("OverflowError", "MemoryError", "VisitationError") and \
+                    any(("_offset_" in t or "_bit_length_" in t) and BIG_CAPACITY.search(t) for t in texts):
+                return "%s %s" % (k.get("id", "?"), k.get("description", "")[:200])
         if sig.get("kind") == "recursion-depth-fields":
             # a raw RecursionError or InternalError(RecursionError) on a definition with about 195 or more fields in one section
             if obs.get("culprit") == "RecursionError" and obs.get("out") in ("COther", "CInternal"):
